@@ -1,7 +1,8 @@
 """C08 - t2grid consistency.  Rules PAIR (+BACKREF), REKEY, NAMEKEY."""
 import ast
-from ..core import AnalysisError, norm, dotted, call_name, walk_no_nested
+from ..core import AnalysisError, norm, dotted, call_name, walk_no_nested, is_self_attr
 from ..containers import PairAnalysis, PAIRS, rekey_sites
+from .. import roles
 
 LEVEL = 'other'
 EXPLANATION = (
@@ -145,7 +146,92 @@ def rule_namekey(run):
     namekey_rule(run, 't2grids', 't2grid', floor=2)
 
 
+def rule_nameuse(run):
+    run.rule('NAMEUSE', 'rock types are registered by name (self.rocktype is keyed by rt.name, add_rocktype replaces a same-named entry '
+             'while blocks keep the old object): whether a registered rock type is still in use is therefore decided by comparing '
+             'names (blk.rocktype.name), never object identity - otherwise deleting an "unused" entry leaves blocks whose rock '
+             'type name is no longer registered', floor=1)
+    from ..core import parent_map
+    prog = run.prog
+    cls = prog.cls('t2grids', 't2grid')
+    for fi in sorted(cls.methods.values(), key=lambda f: f.name):
+        dels = [c for c in ast.walk(fi.node) if isinstance(c, ast.Call) and call_name(c) == 'delete_rocktype' and is_self_attr(c.func)]
+        # only deletions decided from usage: inside a loop or under a condition
+        if not dels or fi.name == 'delete_rocktype': continue
+        if not any(isinstance(n, (ast.For, ast.While, ast.If, ast.ListComp)) for n in ast.walk(fi.node)): continue
+        todo, seen, byname, byid = [fi], set(), [], []
+        while todo:
+            g = todo.pop()
+            if g.name in seen: continue
+            seen.add(g.name)
+            pm = parent_map(g.node)
+            for n in ast.walk(g.node):
+                if isinstance(n, ast.Attribute) and n.attr == 'rocktype' and not is_self_attr(n):
+                    par = pm.get(n)
+                    if isinstance(par, ast.Attribute) and par.attr == 'name': byname.append((g, n))
+                    elif isinstance(n.ctx, ast.Load): byid.append((g, n))
+                if isinstance(n, ast.Call) and is_self_attr(n.func) and n.func.attr in cls.methods and n.func.attr != 'delete_rocktype':
+                    todo.append(cls.methods[n.func.attr])
+        key = 't2grid.%s :: rock type usage decided by name' % fi.name
+        if byid and not byname:
+            g, n = byid[0]
+            run.violated(key, '`%s` collects the rock type *objects* of the blocks; a registered rock type whose name is used by a block '
+                         'holding another object of that name (add_rocktype of an existing name, or grids added together) counts as '
+                         'unused and is deleted, leaving blocks with an unregistered rock type' % norm(pm_stmt(g, n)), where=g.where(n))
+        elif byname: run.ok(key, {'by name': len(byname), 'by object': len(byid)}, where=fi.where())
+        else: run.unknown(key, 'no use of blk.rocktype found in the decision', where=fi.where())
+
+
+def rule_uniqguard(run):
+    run.rule('UNIQGUARD', 'add_block() silently replaces a block of the same name, so a function that creates blocks under generated names '
+             'and promises to refuse duplicates must test each new name against the live dictionary self.block (which add_block updates), '
+             'not against a snapshot taken before its loop', floor=1)
+    from ..core import parent_map
+    cls = run.prog.cls('t2grids', 't2grid')
+    for fi in sorted(cls.methods.values(), key=lambda f: f.name):
+        pm = parent_map(fi.node)
+        for n in ast.walk(fi.node):
+            if not (isinstance(n, ast.If) and isinstance(n.test, ast.Compare) and len(n.test.ops) == 1 and isinstance(n.test.ops[0], ast.In)
+                    and isinstance(n.test.left, ast.Name) and any(isinstance(x, ast.Raise) for x in n.body)): continue
+            nm = n.test.left.id
+            # the guarded continuation creates a block with that name and adds it
+            cont = n.orelse or []
+            made = [c for st in cont for c in ast.walk(st) if isinstance(c, ast.Call) and isinstance(c.func, ast.Name) and c.func.id == 't2block'
+                    and c.args and isinstance(c.args[0], ast.Name) and c.args[0].id == nm]
+            if not made: continue
+            D = n.test.comparators[0]
+            key = 't2grid.%s :: duplicate test of generated block name `%s`' % (fi.name, nm)
+            if is_self_attr(D, 'block'):
+                run.ok(key, 'tested against self.block', where=fi.where(n)); continue
+            if isinstance(D, ast.Name):
+                # a local: acceptable only if it is kept up to date inside the enclosing loop
+                loop = n
+                while loop in pm and not isinstance(loop, (ast.For, ast.While)): loop = pm[loop]
+                upd = [x for x in ast.walk(loop) if (isinstance(x, ast.Subscript) and isinstance(x.ctx, ast.Store) and isinstance(x.value, ast.Name) and x.value.id == D.id)
+                       or (isinstance(x, ast.Call) and isinstance(x.func, ast.Attribute) and x.func.attr in ('add', 'append', 'update') and
+                           isinstance(x.func.value, ast.Name) and x.func.value.id == D.id)] if isinstance(loop, (ast.For, ast.While)) else []
+                src = [v for name, v, st in roles.assignments(fi.node) if name == D.id]
+                if upd: run.ok(key, 'tested against `%s`, which the loop keeps up to date' % D.id, where=fi.where(n))
+                elif src:
+                    run.violated(key, 'the new name is tested against `%s` (= %s), built before the loop and never updated in it: two blocks of one '
+                                 'call whose generated names coincide are not noticed, the second silently replaces the first and the first '
+                                 'block\'s connection is left joining a block that is not in the grid' % (D.id, norm(src[0])[:80]), where=fi.where(n))
+                else: run.unknown(key, 'origin of `%s` not found' % D.id, where=fi.where(n))
+            else:
+                run.unknown(key, 'container `%s` not recognised' % norm(D), where=fi.where(n))
+
+
+def pm_stmt(g, n):
+    from ..core import parent_map
+    pm = parent_map(g.node)
+    cur = n
+    while cur in pm and not isinstance(cur, ast.stmt): cur = pm[cur]
+    return cur
+
+
 def check(run):
+    run.guarded('UNIQGUARD', rule_uniqguard)
+    run.guarded('NAMEUSE', rule_nameuse)
     run.guarded('PAIR', rule_pair)
     run.guarded('REKEY', rule_rekey)
     run.guarded('NAMEKEY', rule_namekey)
